@@ -76,6 +76,11 @@ def cmapProbes (dirs : List Bytes) (name : Bytes) : List Bytes :=
   if cmapGuardRejects basename (stripNul name) (cmapFilename name) then []
   else dirs.map (fun d => join d (cmapFilename name))
 
+/-- The resource directories `_load_data` searches, in order: the directory named by the environment
+    variable `CMAP_PATH` (`env = none`: not set → the regenerated default literal) and `<package>/cmap`. -/
+def cmapDirs (env : Option Bytes) (pkgdir : Bytes) : List Bytes :=
+  [env.getD cmapPathDefault, join pkgdir cmapPkgSubdir]
+
 def cmapProbesPinned (dirs : List Bytes) (name : Bytes) : List Bytes :=
   dirs.map (fun d => join d (cmapFilename name))
 
